@@ -53,6 +53,13 @@ def run_continue(case):
     start_step = int(tB1[idx])
     remaining = L1 + L2 - start_step
     oB2["rotations"] = rot(remaining)
+    if case.get("legacy3") and not case.get("inplace"):
+        # the older results-file layout /PhaseSpace/data[record][x][y] (no bunch axis) is still accepted as a start file:
+        # the same records, written in that layout, must continue exactly like the file they were taken from
+        # (round-9 seed C11i always loads record 0 from such a file)
+        lname = "b1legacy." + e1
+        cli.mkds(os.path.join(wd, lname), "/PhaseSpace/data", np.ascontiguousarray(hB1["/PhaseSpace/data"][:, 0]))
+        oB2["InitialDistFile"] = lname
     if case.get("inplace"):
         # continuing "in place": the results go to the very file the run starts from (what rerunning with the saved .cfg and
         # -i does).  The comparison keeps its own copy of the first leg.
@@ -64,7 +71,7 @@ def run_continue(case):
         return Outcome(False, True, ["runfail"], "continued run failed: %s %s" % (rB2.out[-400:], rB2.err[-300:]), sig="c11:runfail2")
     hB2 = cli.H5(os.path.join(wd, b2name))
     cls = ["ren%d" % (ren if ren <= 0 else 1), "sel_default" if sel is None else "sel%d" % (0 if sel >= 0 else 1),
-           "wake" if o.get("VacuumGap", 0.03) != 0 else "nowake"] + (["inplace"] if case.get("inplace") else [])
+           "wake" if o.get("VacuumGap", 0.03) != 0 else "nowake"] + (["inplace"] if case.get("inplace") else []) + (["legacy_layout"] if case.get("legacy3") and not case.get("inplace") else [])
     nontriv = bool(L1 >= 5 and L2 >= 5 and o.get("InitialDistZoom", 1.0) != 1.0)
     met = {}
     # 1. loads exactly
@@ -175,6 +182,8 @@ def continue_cases(draw):
     c = dict(opts=o, L1=L1, L2=L2, outstep=outstep, startstep=sel, save2=draw(st.sampled_from([0, 1, 3])))
     if draw(st.integers(0, 4)) == 0:
         c["inplace"] = True
+    if draw(st.integers(0, 4)) == 0:
+        c["legacy3"] = True
     if draw(st.integers(0, 2)) == 0:
         c["ext1"], c["ext2"] = draw(st.sampled_from([("hdf5", "h5"), ("h5", "hdf5"), ("hdf5", "hdf5")]))
     return c
